@@ -37,7 +37,8 @@ import (
 // Unit level (what an endpoint does with / without a session key, and with an all-zero peer key):
 //
 //	seal <payload>            crypto.SessionKey.Encrypt                 -> sealed <len> leak <0|1>
-//	assoc <0|1> <payload>     udp.Association.Encrypt (1 = key set)     -> sealed <len> leak <0|1> | plain
+//	assoc <0|1|closed> <payload>  udp.Association.Encrypt (1 = key set; closed = key set, then Close())
+//	                                                                    -> sealed <len> leak <0|1> | plain | err
 //	icmpsess <0|1> <payload>  icmp.Session.Encrypt                      -> sealed <len> leak <0|1> | plain
 //	icmpinit zero|honest      agent.deriveICMPSessionKey (ingress)      -> key | nil | err
 //	respkey zero|honest       agent.deriveResponderSessionKey (exit)    -> key | err
@@ -735,8 +736,11 @@ func init() {
 				p := unhexTok(f[2])
 				as := udp.NewAssociation(1, 1, peerID)
 				defer as.Close()
-				if f[1] == "1" {
+				if f[1] == "1" || f[1] == "closed" {
 					as.SetSessionKey(c04Session(false))
+				}
+				if f[1] == "closed" {
+					as.Close() // what a UDP_CLOSE / idle expiry does while a reply is in hand in readLoop
 				}
 				ct, err := as.Encrypt(p)
 				return c04Sealed(p, ct, err)
@@ -744,8 +748,11 @@ func init() {
 				p := unhexTok(f[2])
 				s := icmp.NewSession(1, 1, peerID, net.IPv4(127, 0, 0, 1))
 				defer s.Close()
-				if f[1] == "1" {
+				if f[1] == "1" || f[1] == "closed" {
 					s.SetSessionKey(c04Session(false))
+				}
+				if f[1] == "closed" {
+					s.Close()
 				}
 				ct, err := s.Encrypt(p)
 				return c04Sealed(p, ct, err)
@@ -792,6 +799,9 @@ func init() {
 			n, meshN := 40, 6
 			if tier == "thorough" {
 				n, meshN = 600, 60
+			}
+			for _, sz := range []int{16, 1400} {
+				fmt.Fprintf(w, "assoc closed %s\nicmpsess closed %s\n", h(r.bytes(sz)), h(r.bytes(sz)))
 			}
 			for _, z := range []string{"zero", "honest"} {
 				fmt.Fprintf(w, "icmpinit %s\nrespkey %s\n", z, z)
@@ -866,6 +876,19 @@ func init() {
 			fmt.Fprintf(w, "def ingressFallsBack : Bool := %s\n", b(ingress))
 			fmt.Fprintf(w, "/-- udp.Association.Encrypt / icmp.Session.Encrypt without a session key return their input (udp %v, icmp %v) -/\n", exitUDP, exitICMP)
 			fmt.Fprintf(w, "def exitFallsBack : Bool := %s\n", b(exitUDP || exitICMP))
+			// a CLOSED association / session (key wiped by Close) still "encrypts" by returning its input
+			as2 := udp.NewAssociation(2, 2, peerID)
+			as2.SetSessionKey(c04Session(false))
+			as2.Close()
+			ct, err = as2.Encrypt(probe)
+			closedUDP := err == nil && bytes.Equal(ct, probe)
+			se2 := icmp.NewSession(2, 2, peerID, net.IPv4(127, 0, 0, 1))
+			se2.SetSessionKey(c04Session(false))
+			se2.Close()
+			ct, err = se2.Encrypt(probe)
+			closedICMP := err == nil && bytes.Equal(ct, probe)
+			fmt.Fprintf(w, "/-- Encrypt on an association / session that HAD a key and was closed returns its input (udp %v, icmp %v) -/\n", closedUDP, closedICMP)
+			fmt.Fprintf(w, "def closedUdpPassThrough : Bool := %s\ndef closedIcmpPassThrough : Bool := %s\n", b(closedUDP), b(closedICMP))
 			fmt.Fprintf(w, "end MM.Gen.C04\n")
 		},
 	})
